@@ -256,7 +256,48 @@ def run(rep, tier, seed, proof_ok, rng):
             rep.violation("rejected-but-ran", f"rejected evaluation executed {r['impl']['log']} or touched the store", replay)
         if not exp and not out.startswith("ok:"):
             rep.violation("well-formed-rejected", f"evaluation keeping {paths} was rejected: {out[:60]}", replay)
-    rep.extra["program_part"] = {"call_graphs": len(good), "verdicts": verdicts, "overlap_evaluations": len(ocases)}
+    # the path given to a top-level dds.keep overlaps a path kept inside the function, on a store that already holds the
+    # result of the same function kept at a harmless path (the root blob is present: nothing needs to run)
+    rcases = []
+    for inner in (["/f/h", "/g"], ["/a/b/c"], ["/f"]):
+        for rootp in ("/f", "/g/z", "/f/h/k", "/a", "/a/b", "/q", "/f/h"):
+            if rootp in inner:
+                continue
+            for warm in (True, False):
+                rcases.append((inner, rootp, warm))
+
+    def run_r(case):
+        inner, rootp, warm = case
+        prog = overlap_program(inner, [None] * len(inner))
+        k1 = {"a": "call", "mod": "m0", "fn": "root", "style": "keep", "path": "/x_harmless", "pos": [], "kw": []}
+        k2 = dict(k1, path=rootp)
+        try:
+            return hist.run_history([("prog", prog)] + ([("act", k1)] if warm else []) + [("act", k2)], run_ref=False)
+        except Exception as e:  # noqa
+            return {"error": str(e)[-500:]}
+    with cf.ThreadPoolExecutor(max_workers=C.NPROC) as ex:
+        rres = list(ex.map(run_r, rcases))
+    for (inner, rootp, warm), recs in zip(rcases, rres):
+        rep.case(json.dumps(["overlap-root-path", inner, rootp, warm]))
+        if isinstance(recs, dict):
+            rep.violation("harness-error:c11r", recs["error"][-300:], {"inner": inner, "root_path": rootp}, no_input=True)
+            continue
+        r = recs[-1]
+        exp = c11.expected_overlap(inner + [rootp])
+        out = r["impl"]["out"]
+        replay = {"overlap_root_path": True, "inner": inner, "root_path": rootp, "store_warm": warm, "impl": out}
+        for rr in recs:
+            d = hist.compare(rr)
+            if d:
+                rep.violation("model-mismatch:overlap-root-path", f"implementation and model disagree: {json.dumps(d[:2])[:300]}", replay)
+        if exp and out != "dds:OVERLAPPING_PATH":
+            rep.violation("overlap-eval-missed:root-path" + (":cached-root" if warm else ""),
+                          f"dds.keep({rootp!r}, f) with f keeping {inner} ({'result of f already stored' if warm else 'fresh store'}) was not rejected: {out[:60]}", replay)
+        if exp and (r["impl"]["log"] or any(x[0] in ("put", "sync") for x in r["impl"]["rec"])):
+            rep.violation("rejected-but-ran", f"rejected evaluation executed {r['impl']['log']} or touched the store", replay)
+        if not exp and not out.startswith("ok:"):
+            rep.violation("well-formed-rejected", f"dds.keep({rootp!r}, f) with f keeping {inner} was rejected: {out[:60]}", replay)
+    rep.extra["program_part"] = {"call_graphs": len(good), "verdicts": verdicts, "overlap_evaluations": len(ocases), "overlap_root_path": len(rcases)}
 
 
 def replay(r):
